@@ -133,7 +133,13 @@ class AstToSqlAlchemyOrmVisitor(common._CommonVisitors, visitor.NodeVisitor):
             ):
                 foreign_key = prop_inspect._calculated_foreign_keys
                 if len(foreign_key) == 1:
-                    return next(iter(foreign_key))
+                    column = next(iter(foreign_key))
+                    parent = inspect(elem).parent
+                    if parent.is_aliased_class:
+                        # The relationship was taken from an alias of the model
+                        # (``select(aliased(Model))``): compare that alias's column.
+                        column = parent.selectable.corresponding_column(column)
+                    return column
         except Exception:
             pass
 
